@@ -336,7 +336,64 @@ def run(tape, kind):
         supplied_sets = set()
         stop = False
         for step in range(tape.int('n_batches', 1, 5)):
-            how = tape.choice('batch_via', ['compute', 'submit', 'submit_override'])
+            how = tape.choice('batch_via', ['compute', 'submit', 'submit_override', 'submit_pair'])
+            if how == 'submit_pair':
+                # two batches are loaded and submitted before the first one is fetched (what
+                # speculative submission does); each is judged with its own metadata
+                reqs_ = []
+                rids_ = []
+                exc = None
+                try:
+                    for _ in range(2):
+                        bi = handler.next_index
+                        sup = dict(pool.get_batch(bi)) if pool is not None else {}
+                        req_counter[0] += 1
+                        rid = req_counter[0]
+                        cur_req[0] = rid
+                        handler.submit(None)
+                        cur_req[0] = None
+                        reqs_.append({'desc': 'handler(%s).submit_pair@%d pool=%s hit=%s' % (
+                            outs, bi, store_names, sorted(sup)), 'requested': outs,
+                            'supplied': sup, 'bs': bs, 'bi': bi, 'stores': tuple(store_names)})
+                        rids_.append(rid)
+                    for q_ in reqs_:
+                        b_, i_ = handler.wait_next()
+                        if i_ != q_['bi']:
+                            raise RuntimeError('harness: index mismatch')
+                        q_['result'] = b_
+                except RuntimeError:
+                    raise
+                except Exception as e:
+                    exc = e
+                finally:
+                    cur_req[0] = None
+                out.probes['two_batches_loaded_before_first_ran'] += 1
+                r = True
+                if exc is not None:
+                    out.ev('R submit_pair -> %s' % type(exc).__name__)
+                    if not bad_discs:
+                        msg = str(exc)
+                        out.violate('no-crash', 'isolated-node' if 'is not in the digraph' in msg
+                                    else type(exc).__name__, req=reqs_[0]['desc'] if reqs_
+                                    else 'submit_pair', error=msg[:200])
+                        r = False
+                else:
+                    for q_, rid in zip(reqs_, rids_):
+                        q_['calls'] = [c for c in sp.REC.calls if c['req'] == rid]
+                        out.ev('R %s -> ok' % q_['desc'])
+                        if involved(q_['requested'], q_['supplied']):
+                            out.violate('stochastic-observed-rejected', '', req=q_['desc'])
+                            r = False
+                            break
+                        if judge(out, idx, order_names, q_) is False:
+                            r = False
+                            break
+                        supplied_sets.add(tuple(sorted(q_['supplied'])))
+                abstract.append((how, len(outs), 0))
+                if r is False:
+                    stop = True
+                    break
+                continue
             if how == 'compute':
                 bi = tape.int('batch_index', 0, 4)
                 sup = dict(pool.get_batch(bi)) if pool is not None else {}
